@@ -10,7 +10,7 @@ TECHNIQUE = "static analysis over type-checked MIR: Result-discipline inventory 
 LEVEL_TEXT = """Static, all-paths decision of the error/recovery clauses: (E1) every call in the cone of RollingFileAppender::append (policy, rollers, helpers) whose callee returns a Result has its value propagated, matched or passed on — enumerated exceptions: best-effort diagnostics written to stderr; (E2) no un-discharged panic site on the rotation path (append, get_writer, LogFile::roll, CompoundPolicy::process, every Roll implementor and helpers; cut at dyn Encode and dyn Trigger); (E3) the writer slot is None after roll() whether or not the roller succeeds and the next append reopens the active path, appending unless it truncates — never positioned at offset 0 of content it keeps (C05.R3/R5 premises); (E4) no OpenOptions::truncate whose argument can be true is reachable from Append::append — the argument's truth table is evaluated per calling context with the call site's constant arguments bound; (E5) archives are shifted oldest-first, so the only chunk ever overwritten is the one due for eviction. On-disk states at every crash point and after every fault are not decided (they need the file system)."""
 LEVEL_NOTE = "Trusted: rustc MIR/callee resolution; std::fs semantics; the external may-panic contract table. Decides error propagation, panic freedom, reopen mode and shift order on all paths; not crash images."
 EXPLANATION = """Decided: E1 error discipline, E2 no panic on the rotation path, E3 recoverability (slot closed, reopened iff closed), E4 reopening never truncates, E5 crash ordering (oldest first). Undecided: on-disk state at every crash point / after every fault sequence."""
-DECIDED = ["E1", "E2", "E3", "E4", "E5"]
+DECIDED = ["E1", "E2", "E3", "E4", "E5", "E1b no Ok return is reachable from the Err edge of a file-system call on the rotation path (only rename/NotFound is tolerated)"]
 UNDECIDED = ["on-disk states at every crash point and after every fault"]
 TRUSTED = ["rustc nightly MIR + Instance::try_resolve", "std::fs semantics", "external may-panic contract table"]
 
@@ -57,6 +57,49 @@ def run_cfg(ctx, p, cfg):
                 r.require(ok, "result:%s/%s" % (path, common.role(c)), fn=f, site=c.at, detail="%s returns %s; value is propagated/matched/passed on" % (c.callee, dty[:60]),
                           fail_detail="the Result of %s is dropped on the rotation path" % c.callee)
         r.floor("result-returning-calls", n, 15)
+
+    with ctx.rule("E1b", "file-system errors are not swallowed", cfg) as r:
+        cone = rotation_cone(p)
+        n = 0
+        for path in sorted(cone):
+            f = p.fns[path]
+            if "Derive" in (f.d.get("exp") or ""):
+                continue
+            oks = set(q.ok_exit_blocks(f))
+            for c in f.calls():
+                if not (c.callee or "").startswith("std::fs::") or not c.t.get("dest_ty", "").startswith("core::result::Result<"):
+                    continue
+                n += 1
+                leaks = []
+                for blk in f.blocks:
+                    if blk["term"]["k"] != "switch" or blk["id"] not in f.reachable_blocks():
+                        continue
+                    si = SwitchInfo(f, blk["id"])
+                    d = strip(si.discr)
+                    if d[0] != "discr":
+                        continue
+                    inner = strip(d[1])
+                    if inner[0] == "call" and inner[1] == "core::ops::try_trait::Try::branch" and inner[2]:
+                        inner = strip(inner[2][0])
+                    if not (inner[0] == "call" and len(inner) > 3 and inner[3] == c.block):
+                        continue
+                    for lab in ("Err", "Break"):
+                        t = si.target_of(lab)
+                        if t is not None:
+                            hit = oks & f.reach(t, include_src=True)
+                            if hit:
+                                leaks.append((blk["id"], sorted(hit)))
+                # the one documented tolerance: a rename whose source does not exist (a missing intermediate archive)
+                tolerated = False
+                if leaks and c.callee == "std::fs::rename":
+                    tolerated = all(any(any(x[0] == "call" and x[1] == "std::io::error::Error::kind" for x in walk(si2.discr)) and
+                                        any(x[0] == "agg" and x[2] == "NotFound" or (x[0] == "const" and x[2] == "NotFound") for x in walk(si2.discr))
+                                        for sb2, si2, al2 in f.conditions(ob)) for _, obs in leaks for ob in obs)
+                r.require(not leaks or tolerated, "fs-error-reaches-the-caller:%s/%s" % (path.rsplit("::", 1)[-1], common.role(c)), fn=f, site=c.at,
+                          detail="no Ok return is reachable from the Err edge of %s%s" % (c.callee, " (except NotFound, tolerated by contract)" if tolerated else ""),
+                          fail_detail="an error of %s can end in an Ok return (switch bb%s -> Ok exits %s): the step is skipped silently and the rotation goes on as if it had succeeded" % (
+                              c.callee, leaks[0][0] if leaks else None, leaks[0][1] if leaks else None))
+        r.floor("fs-calls-on-the-rotation-path", n, 6)
 
     with ctx.rule("E2", "no panic on the rotation path", cfg) as r:
         cone = rotation_cone(p)
